@@ -187,19 +187,30 @@ def _prune():
         ds = [os.path.join(CACHE, d) for d in os.listdir(CACHE) if os.path.isdir(os.path.join(CACHE, d))]
     except FileNotFoundError:
         return
-    ds.sort(key=lambda d: os.path.getmtime(d), reverse=True)
-    now = time.time()
+    def mt(d):
+        try:
+            return os.path.getmtime(d)
+        except OSError:          # removed by a concurrent run's prune
+            return 0.0
     ds = [d for d in ds if os.path.basename(d) != "deps"]
+    ds.sort(key=mt, reverse=True)
+    now = time.time()
     for d in ds[8:]:
         # never remove a directory another process may be filling right now
-        if now - os.path.getmtime(d) > 1500:
+        m = mt(d)
+        if m and now - m > 1500:
             shutil.rmtree(d, ignore_errors=True)
 
 
 def facts_dir(repo=None):
     d = os.path.join(CACHE, tree_hash(repo))
-    os.makedirs(d, exist_ok=True)
-    os.utime(d)
+    for _ in range(3):
+        try:
+            os.makedirs(d, exist_ok=True)
+            os.utime(d)
+            break
+        except OSError:          # a concurrent prune removed it between the two calls
+            continue
     return d
 
 
